@@ -719,6 +719,8 @@ class _Inliner:
             call, kind = st.value, 'assign'
         elif isinstance(st, ast.AnnAssign) and isinstance(st.value, ast.Call) and st.simple:
             call, kind = st.value, 'annassign'
+        elif isinstance(st, ast.Raise) and isinstance(st.exc, ast.Call):
+            call, kind = st.exc, 'raise'
         self.cur_stmt = st
         if call is None and isinstance(st, ast.If):
             return self._inline_guard(st, caller_cls, caller_self)
@@ -738,6 +740,25 @@ class _Inliner:
                 new, _ = _eliminate_returns(body, lambda v, s: ([ast.copy_location(ast.Expr(v), s)] if v is not None and not isinstance(
                     v, (ast.Constant, ast.Name)) else []))
                 return pre + (new or [ast.copy_location(ast.Pass(), st)])
+            if kind == 'raise':
+                # `raise helper(..)` where the helper builds the exception: every `return E` of the helper becomes `raise E`
+                if not body or not isinstance(body[-1], (ast.Return, ast.Raise)):
+                    raise NotInlinable('helper may fall off its end')
+                out = pre + body
+                for holder in ast.walk(ast.Module(out, [])):
+                    for fld in ('body', 'orelse', 'finalbody'):
+                        blk = getattr(holder, fld, None)
+                        if isinstance(blk, list):
+                            for k_, x in enumerate(blk):
+                                if isinstance(x, ast.Return):
+                                    if x.value is None:
+                                        raise NotInlinable('helper returns nothing on some path')
+                                    blk[k_] = ast.copy_location(ast.Raise(x.value, copy.deepcopy(st.cause) if st.cause is not None else None), x)
+                    for h in getattr(holder, 'handlers', []) or []:
+                        for k_, x in enumerate(h.body):
+                            if isinstance(x, ast.Return):
+                                raise NotInlinable('return inside a handler')
+                return out
             target = st.targets[0] if kind == 'assign' else st.target
 
             def assign(v, s):
